@@ -148,6 +148,11 @@ func (e *Exec) prelude() {
 	e.emit("(declare-sort Str 0)")
 	e.emit("(declare-sort Iface 0)")
 	e.emit("(declare-sort F64 0)")
+	e.emit("(declare-sort Lst 0)")
+	e.emit("(declare-const lnil Lst)")
+	e.emit("(declare-fun lsnoc (Lst Str) Lst)")
+	e.emit("(declare-fun joinl (Lst Str) Str)")
+	e.emit("(declare-fun labs ((Array (_ BitVec 64) Str) (_ BitVec 64) (_ BitVec 64)) Lst)")
 	e.emit("(declare-const str.empty Str)")
 	e.emit("(declare-const inil Iface)")
 	e.emit("(declare-const f64.zero F64)")
@@ -782,4 +787,26 @@ func (e *Exec) posOf(p token.Pos) string {
 	}
 	ps := e.L.fset.Position(p)
 	return fmt.Sprintf("%s:%d", strings.TrimPrefix(ps.Filename, "/repo/"), ps.Line)
+}
+
+// listOf: the abstract list of the first n strings of a []string value (labs), with the
+// one-step unfolding stated for exactly this occurrence (no quantified recursion).
+func (e *Exec) listOf(st *State, v Val, pc string) string {
+	arr := sel(e.heapGet(st, elemKey(tString, 0), arrSort(sRef, arrSort(sBV64, sStr))), v.sBase())
+	return e.labsTerm(arr, v.sOff(), v.sLen(), pc)
+}
+
+func (e *Exec) labsTerm(arr, off, n, pc string) string {
+	t := app("labs", arr, off, n)
+	if reBound.MatchString(t) {
+		return t
+	}
+	e.once("labs:"+pc+":"+t, func() {
+		prev := app("labs", arr, off, app("bvsub", n, bvLitI(64, 1)))
+		last := sel(arr, app("bvadd", off, app("bvsub", n, bvLitI(64, 1))))
+		e.assume(mkImp(pc, mkAnd(
+			mkImp(mkEq(n, bvLitI(64, 0)), mkEq(t, "lnil")),
+			mkImp(app("bvsgt", n, bvLitI(64, 0)), mkEq(t, app("lsnoc", prev, last))))))
+	})
+	return t
 }
